@@ -42,6 +42,7 @@ type scheduler struct {
 	Events   []string
 	crash    interface{}
 	Policy   int
+	YieldOnUnlock bool
 	tick     int
 	deadlock bool
 }
@@ -421,6 +422,19 @@ func (ex *Exec) muUnlock(p *value, read bool) {
 		s.ready(g)
 	}
 	m.waiters = nil
+	if s.YieldOnUnlock {
+		s.yield("unlock")
+	}
+}
+
+// yield: the current goroutine goes to the back of the run queue (a preemption point).
+func (s *scheduler) yield(why string) {
+	if len(s.runq) == 0 {
+		return
+	}
+	me := s.cur
+	s.ready(me)
+	s.park("yield at " + why)
 }
 
 // Held reports whether the mutex at p is write-locked by the current goroutine.
